@@ -25,6 +25,7 @@ import (
 	"time"
 
 	"github.com/gopacket/gopacket/layers"
+	"go.uber.org/zap"
 
 	"github.com/scionproto/scion/router"
 	"github.com/scionproto/scion/router/underlayproviders/udpip"
@@ -185,6 +186,7 @@ func runCase(cfg caseCfg, r *vgen.Rand) (out caseOut) {
 	}
 	ctx, cancel := context.WithCancel(context.Background())
 	defer cancel()
+	t0 := time.Now()
 	go func() { _ = dp.Run(ctx) }()
 	if !waitFor(2*time.Second, func() bool {
 		if !dp.Running() {
@@ -207,6 +209,8 @@ func runCase(cfg caseCfg, r *vgen.Rand) (out caseOut) {
 	var wg sync.WaitGroup
 	var stopBFD atomic.Bool
 	var bfdDirect atomic.Int64
+	var directMu sync.Mutex
+	directIDs := map[uint64]bool{}
 	for i := 0; i < cfg.DirectBFD; i++ {
 		ifID := uint16(2)
 		if i == 1 {
@@ -220,6 +224,9 @@ func runCase(cfg caseCfg, r *vgen.Rand) (out caseOut) {
 		wg.Add(1)
 		go func() {
 			defer wg.Done()
+			directMu.Lock()
+			directIDs[router.VerifPoolGoID()] = true
+			directMu.Unlock()
 			msg := &layers.BFD{Version: 1, State: layers.BFDStateDown, DetectMultiplier: 3,
 				MyDiscriminator: 5, DesiredMinTxInterval: 1000, RequiredMinRxInterval: 1000}
 			for k := 0; k < 40 && !stopBFD.Load(); k++ {
@@ -287,26 +294,52 @@ func runCase(cfg caseCfg, r *vgen.Rand) (out caseOut) {
 	wg.Wait()
 	out.Stats["bfd_direct"] = bfdDirect.Load()
 
-	quiet := func(expectHeld int) bool {
+	// last Get/Put of every BFD session goroutine (not the direct callers)
+	sessions := func() []time.Time {
+		_, ths, at := tr.Activity()
+		var out []time.Time
+		for i, th := range ths {
+			if th.Stage == router.VerifPoolStageBFD && !directIDs[th.GoID] {
+				out = append(out, at[i])
+			}
+		}
+		return out
+	}
+	if cfg.BFD {
+		// no more BFD packets arrive: the sessions time out (Down: one packet per second)
+		waitFor(time.Second, func() bool {
+			for _, c := range live {
+				if len(c.in) > 0 {
+					return false
+				}
+			}
+			for _, l := range sessions() {
+				if time.Since(l) < 60*time.Millisecond {
+					return false
+				}
+			}
+			return true
+		})
+	}
+	quiet := func() bool {
 		return waitFor(2*time.Second, func() bool {
 			for _, c := range live {
 				if len(c.in) > 0 {
 					return false
 				}
 			}
-			if dp.PoolLen() != n-expectHeld {
-				return false
-			}
-			time.Sleep(200 * time.Microsecond)
-			return dp.PoolLen() == n-expectHeld
+			c1, _, _ := tr.Activity()
+			l1 := dp.PoolLen()
+			time.Sleep(1500 * time.Microsecond)
+			c2, _, _ := tr.Activity()
+			return c1 == c2 && l1 == dp.PoolLen()
 		})
 	}
-	if cfg.BFD {
-		// let the BFD sessions time out (Down: one packet per second) before looking at the pool
-		time.Sleep(30 * time.Millisecond)
+	if !quiet() {
+		out.Stats["not_quiescent"] = 1
 	}
-	if !quiet(held) {
-		out.Stats["not_quiescent"] = int64(n - held - dp.PoolLen())
+	if dp.PoolLen() != n-held {
+		out.Stats["pool_short_at_quiescence"] = int64(n - held - dp.PoolLen())
 	}
 
 	if cfg.Retained {
@@ -345,6 +378,21 @@ func runCase(cfg caseCfg, r *vgen.Rand) (out caseOut) {
 		}
 	}
 
+	if cfg.BFD {
+		// udpConnection.stop closes the send queues before the BFD sessions are stopped; a BFD
+		// packet sent in between panics (send on closed channel) and log.HandlePanic exits the
+		// process. Stop the router only while every session is well inside its 0.75-1 s pause.
+		waitFor(5*time.Second, func() bool {
+			ls := sessions()
+			for _, l := range ls {
+				if d := time.Since(l); d < 60*time.Millisecond || d > 600*time.Millisecond {
+					return false
+				}
+			}
+			// a session that has not sent yet sends first 1 s after it was started
+			return len(ls) == 2 || time.Since(t0) < 800*time.Millisecond
+		})
+	}
 	done := make(chan struct{})
 	go func() { dp.Shutdown(); close(done) }()
 	select {
@@ -446,6 +494,13 @@ func term(o *caseOut) string {
 
 func main() {
 	dump := flag.Bool("dump", false, "print per-case statistics to stderr")
+	// A panic in a router goroutine ends in log.HandlePanic -> os.Exit(255); make it visible.
+	zcfg := zap.NewProductionConfig()
+	zcfg.Level = zap.NewAtomicLevelAt(zap.ErrorLevel)
+	zcfg.OutputPaths = []string{"stderr"}
+	if lg, err := zcfg.Build(); err == nil {
+		zap.ReplaceGlobals(lg)
+	}
 	run := vgen.Flags("C14")
 	run.Imports = []string{"Model.Pool"}
 	run.CheckFn = "Pool.check"
@@ -467,6 +522,9 @@ func main() {
 		if !run.Want() {
 			run.Skip()
 			continue
+		}
+		if *dump {
+			fmt.Fprintf(os.Stderr, "start %d %+v\n", i, cfg)
 		}
 		out := runCase(cfg, r)
 		stagesPut := map[int]int{}
